@@ -596,8 +596,9 @@ func (h *harness) fullHistoryCase(hist fullHistory, family string) {
 	}
 	cur := d0
 	headState, prune := false, false
-	effRet := uint64(0)   // retainedBlocks whose cutoff the database was actually pruned to (read off the final database)
-	var candRets []uint64 // retainedBlocks of every start that ran with prune-mode
+	effRet := uint64(0)                         // retainedBlocks whose cutoff the database was actually pruned to (read off the final database)
+	var candRets []uint64                       // retainedBlocks of every start that ran with prune-mode
+	pruneDoneRet, pruneDone := uint64(0), false // retainedBlocks of the start whose pruner returned (nil, nil)
 	var btImgs []string
 	starts := append([]fullStart{}, hist.Starts...)
 	for si := 0; si < len(starts)+3; si++ {
@@ -660,6 +661,9 @@ func (h *harness) fullHistoryCase(hist fullHistory, family string) {
 			res.Hit("full-start:cancelled-or-error")
 		}
 		h.compareFullStart(hist, si, o)
+		if ob := o.obs[1]; ob != nil && ob.called && ob.st == nil && ob.errKind == "n" && len(candRets) > 0 {
+			pruneDoneRet, pruneDone = candRets[len(candRets)-1], true
+		}
 		btImgs = append(btImgs, o.btImgs...)
 		cur = o.after
 		if o.failedWrites > 0 && !o.crashed && o.result == "ok" {
@@ -710,6 +714,9 @@ func (h *harness) fullHistoryCase(hist fullHistory, family string) {
 				// (block data pruned, reverse lookups wiped) was taken over by a run that decided
 				// differently: known root cause, every divergence below belongs to it
 				last := candRets[len(candRets)-1]
+				if pruneDone {
+					last = pruneDoneRet
+				}
 				if floor := oldestRetained(cur); hist.Spec.oldestKept(last) != floor {
 					tmp := lib.NewResult("")
 					saved := h.res
